@@ -17,7 +17,8 @@ from .C03 import prefix_guards
 LEVEL_TEXT = ('Static analysis (must-not dependence of generator labels on capacities; one-origin dataflow rule for table and padding at both mixed MSMs; '
               'guard normal forms of the prefix comparisons). Decides that generator j of party i is derived independently of the requested capacities and that '
               'prover and verifier size their static scalar vectors from the same statement whose table they use. Does not decide numeric equality of '
-              'verification results across capacities.')
+              'verification results across capacities. Also: the verifier core rejects on nothing that mentions the capacity of the parameters '
+              '(R-C01-6), and the redundant comparison of vector generators across batch members, if present, is a prefix comparison.')
 ASSUMPTIONS = ['an `enumerate` index is independent of the bound of the enumerated range', 'Iterator::take yields a prefix']
 RULE_TEXT = 'one obligation per label sink, per MSM argument relation, per prefix guard; non-trivial = decided from a term'
 
